@@ -401,10 +401,11 @@ def parse_shape(R, ctx):
                                           "the words the renderer writes (incl. `off`) are not all understood, so Display/TOML text does not parse back to the same specification"
                             else:
                                 raise CheckError(f"R17.1: origin of a pushed level not recognised: {repr(lx)[:200]}")
-        # (f) structure: a third '/'-separated segment makes the whole text malformed - whatever that segment contains: the row ends in the error
+        # (f) structure: a '/'-separated segment beyond the module part and the text filter (with feature textfilter: a third one) makes the whole text malformed - whatever that segment contains: the row ends in the error
         # result and nothing of the text is applied (a tolerated `info/foo/` would silently drop whatever follows the second '/')
         sl = [e for e in r.effects if e[0].split('::')[-1] == 'next' and _splits_at(e[2]['x'][0], '/')]
-        if len(sl) >= 3 and r.get(f"variant({sl[2][0]}#{sl[2][2].get('n')})") == 'Some':
+        si = 2 if ctx.has('textfilter') else 1       # without the textfilter feature there is no filter segment: the second segment is the surplus one
+        if len(sl) > si and r.get(f"variant({sl[si][0]}#{sl[si][2].get('n')})") == 'Some':
             n_slash += 1
             # a row that recorded an error text and then finds the collected text empty is infeasible (helpers that turn `collected errors` into the
             # result fork on is_empty(); the text pushed is never empty)
